@@ -165,6 +165,14 @@ Fixpoint reach (fuel : nat) (pairs : list pair) (visited : list C) : list C :=
 Definition is_path (pairs : list pair) (src snk : C) : bool :=
   cmem snk (reach (S (length pairs)) pairs [src]) && negb (ceqb src snk).
 
+(* _schwartz_set (the repaired SchwartzSet, fixes/C06-schwartz-set): the candidates, in the Copeland order the Smith routine
+   uses, that have a beat path (strict defeats only; RankedPairs._is_path) back to every candidate with a beat path to them *)
+Definition schwartz_set (v0 : pvotes) : list C :=
+  let v := complete v0 in
+  let order := map fst (sort_desc zle_bool (copeland_scores (pairwise_wins v true))) in
+  let defeats := pairwise_wins v false in
+  filter (fun c => forallb (fun o => implb (is_path defeats o c) (is_path defeats c o)) order) order.
+
 Definition lock_pairs (pairs : list pair) : list pair :=
   fold_left (fun locked p => if is_path locked (snd p) (fst p) then locked else locked ++ [p]) pairs [].
 
